@@ -30,15 +30,39 @@ class Unit(object):
 _UNITS = []
 
 
+class _Budget(BaseException):
+    pass
+
+
+def _alarm(*a):
+    raise _Budget()
+
+
+UNIT_WALL_BUDGET = int(os.environ.get('VERIF_UNIT_BUDGET', '0') or 0)
+
+
 def _worker(i):
+    import signal
     u = _UNITS[i]
     t0 = time.time()
+    budget = getattr(u, 'budget', None) or UNIT_WALL_BUDGET
+    if budget:
+        signal.signal(signal.SIGALRM, _alarm)
+        signal.alarm(budget)
     try:
         res = u.run()
+    except _Budget:
+        from . import vc
+        res = vc.UnitResult(u.name)
+        res.unsupported = ['exploration exceeded the wall-clock safety budget of %d s (undecided)' % budget]
+        res.obligations = [dict(name='exploration budget', kind='budget', status='unknown', detail=None, where=None, seconds=budget)]
     except BaseException:
         from . import vc
         res = vc.UnitResult(u.name)
         res.error = traceback.format_exc()
+    finally:
+        if budget:
+            signal.alarm(0)
     res.name = u.name
     res.seconds = time.time() - t0
     return i, res
@@ -55,8 +79,15 @@ def run_units(units, jobs=None):
         return results
     ctx = multiprocessing.get_context('fork')
     with ctx.Pool(jobs) as pool:
+        done = 0
         for i, res in pool.imap_unordered(_worker, range(len(units)), chunksize=1):
             results[i] = res
+            done += 1
+            if os.environ.get('VERIF_PROGRESS'):
+                sys.stderr.write('[%d/%d] %s %.1fs paths=%d obl=%d proved=%d %s\n' % (
+                    done, len(units), units[i].name, res.seconds, res.paths, len(res.obligations), res.proved,
+                    '; '.join(res.unsupported)[:160]))
+                sys.stderr.flush()
     return results
 
 
@@ -93,6 +124,7 @@ def main(prop, mod, tier, seed):
     total = discharged = 0
     per_unit = []
     canaries_ok = 0
+    bounded_units = []
     drift = []
     for u, r in zip(units, results):
         entry = dict(unit=u.name, level=u.level, clause=u.clause, paths=r.paths, cut_paths=r.cut_paths,
@@ -113,8 +145,13 @@ def main(prop, mod, tier, seed):
             entry['error'] = r.error
         if not r.obligations and not r.error:
             errors.append('%s generated no obligations' % u.name)
-        total += len(r.obligations)
-        discharged += r.proved
+        if r.extra.get('bounded'):
+            # bounded stand-in: reported separately, never counted among the discharged proof obligations
+            entry['bounded'] = r.extra['bounded']
+            bounded_units.append(dict(unit=u.name, bounds=r.extra['bounded'], obligations=len(r.obligations), passed=r.proved))
+        else:
+            total += len(r.obligations)
+            discharged += r.proved
         bad = r.failed + r.unknown
         if r.unsupported:
             entry['unsupported'] = r.unsupported
@@ -205,7 +242,8 @@ def main(prop, mod, tier, seed):
             per_unit=per_unit,
             samples=sample_obligations(units, results),
             uncovered=getattr(mod, 'UNCOVERED', []),
-            bounded=getattr(mod, 'BOUNDED', []),
+            bounded=dict(notes=getattr(mod, 'BOUNDED', []), units=bounded_units,
+                         statement='bounded units are checked only up to the stated loop bounds; they are NOT counted in obligations/discharged'),
             known_findings=[f['id'] for f in my_findings],
             contract_drift=drift,
             undecided=undecided,
